@@ -126,6 +126,17 @@ func doDump(c *Ctx, what string) {
 		for u := range unk {
 			fmt.Println("  bodyless:", u)
 		}
+	case "modof":
+		e := NewEffects(c)
+		for _, f := range e.funcs {
+			if strings.Contains(f.String(), os.Getenv("FN")) {
+				s := e.sum[f]
+				fmt.Printf("%s modP=%b retP=%b nglob=%d\n", f.String(), s.modP, s.retP, len(s.modG))
+				for k := range s.why {
+					fmt.Printf("   %s: %s\n", k, strings.Join(e.Chain(f, k), " -> "))
+				}
+			}
+		}
 	case "mapranges":
 		for _, f := range modFunctions(c) {
 			allInstrs(f, func(in ssa.Instruction) {
